@@ -35,6 +35,9 @@ def _setup():
         repo.mod("geodepy." + m)
     P.take_pristine()
     P.install_barrier()
+    import os
+    if _Z and _Z[0].pid != os.getpid():
+        del _Z[:]           # inherited through fork: the pipes belong to the parent's evaluator
     if not _Z:
         _Z.append(zygote.Client())
 
